@@ -269,6 +269,7 @@ def run_live(desc, out):
             mids.append(w.add_market_file(path))
         close_time = {}
         reopened = set()
+        delivered = collections.Counter()
         for step in range(40):
             now[0] += _dt.timedelta(seconds=rng.choice((1, 600, 1799, 1801, 3599, 3601)))
             sdt(now[0])
@@ -276,6 +277,20 @@ def run_live(desc, out):
             mb = w.next_book(mid)
             if mb is None:
                 continue
+            if mb.status == "CLOSED":
+                delivered["all"] += 1
+            if rng.random() < 0.35:
+                # the market is also subscribed through a second stream (R1's): the same update arrives once more, right behind the
+                # first and before the handler loop has processed anything
+                import copy as _copy
+                from flumine.events.events import MarketBookEvent
+
+                mb2 = _copy.copy(mb)
+                mb2.streaming_unique_id = 99
+                w.fw._process_market_books(MarketBookEvent([mb2]))
+                if mb.status == "CLOSED":
+                    delivered["all"] += 1
+                    delivered[99] += 1
             if rng.random() < 0.3 and w.market(mid) is not None and w.market(mid).closed:
                 # what the market-closure worker does once cleared
                 w.market(mid).orders_cleared.append("c")
@@ -306,8 +321,10 @@ def run_live(desc, out):
                     out.v("cleared-flags-not-reset-on-reopen" if not mk.closed else "market-not-reopened", {}, market=mid)
         closes = sum(1 for c in tr.closes if c["known"])
         out.rule("callback")
-        if len(got["R0"]) != closes or got["R1"]:
-            out.v("closed-callback-count-differs", {"shape": "live", "subscribed": "mixed", "got": min(len(got["R0"]), 3), "known_market": True}, r0=len(got["R0"]), r1=len(got["R1"]), closes=closes)
+        # one callback per closing update RECEIVED (counted where the updates are handed to the framework): the strategy with the empty
+        # filter for every one of them, the strategy of the second stream for those that came through its stream
+        if len(got["R0"]) != delivered["all"] or len(got["R1"]) != delivered[99]:
+            out.v("closed-callback-count-differs", {"shape": "live", "subscribed": "mixed", "got": min(len(got["R0"]), 3), "known_market": True, "two_streams": delivered[99] > 0}, r0=len(got["R0"]), r1=len(got["R1"]), closes_processed=closes, closing_updates_received=dict(delivered))
         out.d("live:%d" % nm)
     finally:
         livecases.finish(w)
